@@ -83,6 +83,20 @@ Fixpoint resolve_var_old (fuel : nat) (e : env) (t : tok) : res (option (list to
 
 (* ---------------------------------------------------------------- repaired *)
 
+(* varFallback, style.go (after the fallback fix): the tokens following the
+   custom property name (the first Ident among the non-trivia arguments) and
+   its comma; the fallback keeps its own commas *)
+Fixpoint var_fallback (fargs : list tok) : list tok :=
+  match fargs with
+  | [] => []
+  | TIdent _ :: rest =>
+      match remove_whitespace rest with
+      | c :: rest' => if is_literal c comma then rest' else c :: rest'
+      | [] => []
+      end
+  | _ :: rest => var_fallback rest
+  end.
+
 (* the two Go results ([]Token, cyclic bool): RNil = (nil, false) "no var()
    in this token", RToks = (tokens, false), RCyclic = (nil, true) *)
 Inductive rv := RNil | RToks (l : list tok) | RCyclic.
@@ -116,10 +130,10 @@ Fixpoint resolve_var (fuel : nat) (e : env) (visited : list str) (t : tok) : res
       else
         match snd (parse_function t) with
         | [] => Panic site_args0
-        | TIdent variable_name :: default_ =>
+        | TIdent variable_name :: _ =>
             match lookup e variable_name with
             | [] =>
-                let* computed := loop visited default_ in
+                let* computed := loop visited (var_fallback fargs) in
                 match computed with None => Ok RCyclic | Some c => Ok (RToks c) end
             | l =>
                 if in_table visited variable_name then Ok RCyclic
